@@ -336,6 +336,14 @@ def prop_c03(off, k, cs):
         if got != layout.serialize(kk, oo, sp):
             return ("FAIL a later serialisation of the same objects (other key / offset / order) differs from the documented layout: "
                     "state kept on the file or component objects")
+    # `components` is declared as an Iterable: a tuple, an iterator or a generator gives the same file as the list
+    for what, mk in (("tuple", tuple), ("iterator", iter), ("generator", lambda l: (c for c in l)), ("map", lambda l: map(lambda c: c, l))):
+        try:
+            got = Bf3File({}, mk(parse_comps(cs))).to_binary(off, key)
+        except Exception as e:
+            return f"FAIL components handed over as {what}: {type(e).__name__}: {e}"
+        if got != out:
+            return f"FAIL components handed over as {what}: {len(got)} bytes written instead of the {len(out)} bytes of the same list"
     # the text writer with an explicit session key writes the same container after the signature
     s = io.StringIO()
     Bf3File({}, parse_comps(cs)).write_file(s, key)
